@@ -724,7 +724,8 @@ def k_r6_stored_reply_carries_a_profile(p: Project, rep: Report):
     fn = ci.own_func("request_profile")
     if fn is None:
         raise AnalysisError("OFXClient.request_profile not found")
-    reads = [x for x in ast.walk(fn) if isinstance(x, ast.Attribute) and x.attr == "dtprofup" and isinstance(x.value, ast.Attribute) and x.value.attr == "profrs" and isinstance(x.ctx, ast.Load)]
+    kx = Expander(fn)
+    reads = [x for x in ast.walk(fn) if isinstance(x, ast.Attribute) and x.attr == "dtprofup" and isinstance(x.ctx, ast.Load) and ((isinstance(x.value, ast.Attribute) and x.value.attr == "profrs") or kx.t(x.value).endswith(".profrs"))]
     # only the reads made from the SERVER's reply matter: those after the request is sent
     asks = [c for c in ast.walk(fn) if isinstance(c, ast.Call) and text(c.func) == "self._request_profile"]
     if not asks or not reads:
